@@ -15,7 +15,7 @@ import re  # noqa: E402
 
 from falcon.routing.compiled import CompiledRouter  # noqa: E402
 
-from engine.rt import fail, notrace  # noqa: E402
+from engine.rt import fail, notrace, pick  # noqa: E402
 
 PROPERTY = 'C01'
 UNITS = ['falcon.routing.compiled.CompiledRouter.add_route', 'CompiledRouter.find', 'CompiledRouter._compile',
@@ -30,8 +30,8 @@ STUBS = [
     'routers are (re)built concretely inside every path; only find() sees symbolic data',
 ]
 OUTSIDE = ['segments longer than the per-shape bound (2-4 characters)', 'route sets beyond the enumerated menu',
-           'custom converters; uuid / dt / float converter internals (C level or strptime)', 'more than 3 path segments']
-BUDGET = {'quick': 330, 'thorough': 900}
+           'custom converters; uuid / dt converter internals (C level or strptime); the float converter beyond its finite table', 'more than 3 path segments']
+BUDGET = {'quick': 420, 'thorough': 900}
 
 FIELD = re.compile(r'{([^}:]*)(?::([^}(]*)(?:\(([^}]*)\))?)?}')
 
@@ -238,6 +238,47 @@ def history_case(clean, rejected, pos, later, segs, variant):
     return 1
 
 
+# ---------------------------------------------------------------- float converter (finite table)
+FLOAT_ARGS = [('', None, None, True), ('(min=0)', 0, None, True), ('(max=100)', None, 100, True), ('(min=0, max=100)', 0, 100, True),
+              ('(finite=False)', None, None, False), ('(min=0, finite=False)', 0, None, False), ('(max=100, finite=False)', None, 100, False),
+              ('(min=0, max=100, finite=False)', 0, 100, False), ('(min=-1.5, max=1.5)', -1.5, 1.5, True)]
+FLOAT_SEGS = ['1.5', '-2', '0', '-0.0', '100', '100.0000001', '-1.5', '1e2', '1e400', '-1e400', 'inf', '-inf', 'Infinity', '-infinity', 'nan',
+              ' 1', '1 ', '1_0', 'x', '1.5.1', '0x10', '+3', '.5', '5.']
+_FROUTERS = {}
+
+
+def float_case(ai, si):
+    """/c/{v:float<args>} against the documented converter rule: float() must accept the fragment, no surrounding white
+    space, finite unless finite=False, min/max inclusive (the comparison decides, so nan passes a bound)."""
+    import math
+    argsrc, mn, mx, finite = FLOAT_ARGS[ai]
+    seg = FLOAT_SEGS[si]
+    if ai not in _FROUTERS:
+        with notrace():
+            r = CompiledRouter()
+            r.add_route('/c/{v:float%s}' % argsrc, Res('float'))
+            r.find('/')
+            _FROUTERS[ai] = r
+    exp = None
+    if seg.strip() == seg:
+        try:
+            v = float(seg)
+            exp = v
+        except ValueError:
+            pass
+    if exp is not None and finite and not math.isfinite(exp):
+        exp = None
+    if exp is not None and ((mn is not None and exp < mn) or (mx is not None and exp > mx)):
+        exp = None
+    with notrace():
+        found = _FROUTERS[ai].find('/c/' + seg)
+    got = None if found is None else found[2].get('v')
+    same = (got is None and exp is None) or (got is not None and exp is not None and (got == exp or (got != got and exp != exp)))
+    if not same:
+        return fail(lambda: "route '/c/{v:float%s}': find('/c/%s') gives v=%r, the documented converter rule gives %r" % (argsrc, seg, got, exp))
+    return 1
+
+
 # ---------------------------------------------------------------- menus
 ROUTE_SETS = [
     # each mechanism named in the anchors at least once
@@ -257,6 +298,7 @@ ROUTE_SETS = [
     ['/{i:int(1)}{r}', '/{i:int(1)}{r}/{j:int}', '/a{q}'],
     ['/a/{x}/c', '/a/b/{y}', '/a/{x}', '/a'],                 # prefixes added after their extensions: the last adds only fill interior nodes
     ['/{a:int}-{b:int}/{c:int}', '/v/{m:int}/{lo:int}..{hi}', '/{a:int}-{b:int}'],    # several converters in one segment, then a converted simple field
+    ['/f/r.p/m', '/f/{n}.p', '/f/{n}.q/z', '/g/k/x', '/g/{a}-{b}'],     # literal + multi-field siblings only: dead-ending literal must backtrack
 ]
 
 # templates that must be rejected in the given context (context = ROUTE_SETS[ci]); each with later legal adds
@@ -382,6 +424,17 @@ def partitions(tier, seed):
                 sp = _shape_part(si, ti, 0, 600, maxlen=2, extra_seg=True)
                 if sp:
                     P.append(sp)
+    P.append({'name': 'float_converter', 'fn': 'h', 'timeout': 120, 'src': '''
+def h(ai: int, si: int) -> int:
+    \"\"\"
+    pre: 0 <= ai < %d and 0 <= si < %d
+    post: _ != 0
+    \"\"\"
+    return float_case(pick(ai, 0, %d), pick(si, 0, %d))
+''' % (len(FLOAT_ARGS), len(FLOAT_SEGS), len(FLOAT_ARGS) - 1, len(FLOAT_SEGS) - 1),
+              'bounds': 'float converter: %d argument combinations (min / max / finite) x %d path fragments (signs, exponents, overflow to inf, '
+                        'inf / nan spellings, white space, underscores, hex, malformed) -- finite table chosen by the solver, executed '
+                        'concretely (float() realizes its argument at the C boundary)' % (len(FLOAT_ARGS), len(FLOAT_SEGS))})
     for ci, (clean, rejected, later) in enumerate(REJECT_CASES):
         positions = (len(clean),) if q else tuple(range(len(clean) + 1))
         for pos in positions:
